@@ -358,11 +358,13 @@ pub fn guarded<T>(f: impl FnOnce() -> T) -> Result<T, String> {
 }
 
 /// Panic hook for harness processes: panics of the code under test inside `guarded` are values and stay
-/// silent; a panic anywhere else is a harness bug and must be seen.
+/// silent; a panic anywhere else (harness code, or a thread the code under test started itself) is reported on stderr.
 pub fn install_quiet_panic_hook() {
     std::panic::set_hook(Box::new(|info| {
         if !GUARDED.with(|g| g.get()) {
-            eprintln!("PANIC-IN-HARNESS {}", info);
+            // either a harness bug, or the code under test panicking on a thread of its own (a worker pool, a scoped
+            // helper): in the latter case the panic usually reaches the guarded caller as well and is judged there
+            eprintln!("NOTE panic outside a guarded call (harness code, or a thread started by the code under test): {}", info);
         }
     }));
 }
